@@ -6,6 +6,7 @@ package face
 
 import (
 	"io"
+	"net"
 
 	defn "github.com/named-data/ndnd/fw/defn"
 )
@@ -18,3 +19,61 @@ func VerifC11ReadTlvStream(reader io.Reader, onFrame func([]byte), ignoreError f
 // VerifC11MaxPacketSize is the value of defn.MaxNDNPacketSize this binary was built with
 // (8800, or the scaled value of the scaled-model build).
 func VerifC11MaxPacketSize() int { return defn.MaxNDNPacketSize }
+
+// ---------------------------------------------------------------------------------------------
+// The REAL stream transports (unicast TCP, Unix stream) with a recording link layer.
+//
+// VerifC11Sink is a link service whose handleIncomingFrame only records: it is what the
+// transport's receive callback hands each block to ("the receiver hands the link layer exactly
+// those blocks"). Everything else is linkServiceBase; SetMTU is therefore the run-time setter that
+// management faces/update calls (LinkService.SetMTU -> transport.SetMTU).
+type VerifC11Sink struct {
+	linkServiceBase
+	OnFrame func([]byte)
+}
+
+func (s *VerifC11Sink) handleIncomingFrame(frame []byte) { s.OnFrame(frame) }
+func (s *VerifC11Sink) Run(initial []byte)               {}
+
+// VerifC11StreamTransport is one of the repository's stream transports, built by its own
+// constructor on a real connected socket, with a VerifC11Sink as its link service.
+type VerifC11StreamTransport struct {
+	t    transport
+	Sink *VerifC11Sink
+}
+
+func verifC11Attach(t transport, onFrame func([]byte)) *VerifC11StreamTransport {
+	s := &VerifC11Sink{OnFrame: onFrame}
+	s.makeLinkServiceBase()
+	s.transport = t
+	t.setLinkService(s)
+	s.SetFaceID(4711)
+	return &VerifC11StreamTransport{t: t, Sink: s}
+}
+
+// VerifC11AcceptTCP: what TCPListener.Run does with an accepted connection.
+func VerifC11AcceptTCP(conn net.Conn, onFrame func([]byte)) (*VerifC11StreamTransport, error) {
+	t, err := AcceptUnicastTCPTransport(conn, nil, PersistencyPersistent)
+	if err != nil {
+		return nil, err
+	}
+	return verifC11Attach(t, onFrame), nil
+}
+
+// VerifC11AcceptUnix: what UnixStreamListener.Run does with an accepted connection.
+func VerifC11AcceptUnix(conn net.Conn, localPath string, onFrame func([]byte)) (*VerifC11StreamTransport, error) {
+	t, err := MakeUnixStreamTransport(defn.MakeFDFaceURI(7), defn.MakeUnixFaceURI(localPath), conn)
+	if err != nil {
+		return nil, err
+	}
+	return verifC11Attach(t, onFrame), nil
+}
+
+// RunReceive is the transport's receive loop (what the face's receive goroutine runs); it returns
+// when the peer has closed the connection.
+func (v *VerifC11StreamTransport) RunReceive() { v.t.runReceive() }
+
+func (v *VerifC11StreamTransport) String() string   { return v.t.String() }
+func (v *VerifC11StreamTransport) NInBytes() uint64 { return v.t.NInBytes() }
+func (v *VerifC11StreamTransport) IsRunning() bool  { return v.t.IsRunning() }
+func (v *VerifC11StreamTransport) Close()           { v.t.Close() }
